@@ -96,10 +96,22 @@ func randHookable() bool {
 // keys currently in the LRU (oldest first); the field is unexported and its element type cannot be
 // named here, so go through reflection
 func lruKeys(vc *bundle.VerificationCache) []string {
-	f := reflect.ValueOf(vc).Elem().FieldByName("cache")
-	f = reflect.NewAt(f.Type(), unsafe.Pointer(f.UnsafeAddr())).Elem()
-	out := f.MethodByName("Keys").Call(nil)
-	return out[0].Interface().([]string)
+	// found by what it IS (the field whose value offers Keys() []string), not by its name: renaming an unexported
+	// field is a harmless change
+	sv := reflect.ValueOf(vc).Elem()
+	for i := 0; i < sv.NumField(); i++ {
+		f := sv.Field(i)
+		f = reflect.NewAt(f.Type(), unsafe.Pointer(f.UnsafeAddr())).Elem()
+		m := f.MethodByName("Keys")
+		if !m.IsValid() || m.Type().NumIn() != 0 || m.Type().NumOut() != 1 || m.Type().Out(0) != reflect.TypeOf([]string(nil)) {
+			continue
+		}
+		if f.Kind() == reflect.Pointer && f.IsNil() {
+			continue
+		}
+		return m.Call(nil)[0].Interface().([]string)
+	}
+	panic("harness: bundle.VerificationCache has no field offering Keys() []string any more")
 }
 
 // which order the model sorts the candidates in: "kid" = stable by ticket id (the code as it is
